@@ -27,6 +27,8 @@ structure Node where
 structure Shared where
   ctr : Nat → Nat
   nodes : List Node
+  /-- identity of the store (and of its lock): incremented when the singleton is replaced by a fresh store -/
+  gen : Nat := 0
 
 structure Thread where
   prog : List Micro
@@ -61,6 +63,9 @@ def effect (m : Micro) (reg : Nat) (sh : Shared) : Shared × Nat :=
   | .del g => ({ sh with nodes := sh.nodes.filter (fun n => n.owner != g) }, reg)
   | .delSpace c => ({ sh with nodes := sh.nodes.filter (fun n => n.space != c) }, reg)
   | .delAll => ({ sh with nodes := [] }, reg)
+  | .ctor weak =>
+    -- the singleton exists from the start; a weak creation guard takes an empty store for "no store yet"
+    if weak && sh.nodes.isEmpty then (⟨fun _ => 1, [], sh.gen + 1⟩, reg) else (sh, reg)
   | _ => (sh, reg)
 
 def step (t : Nat) (s : Sys) : Option Sys :=
@@ -86,7 +91,7 @@ def run : List Nat → Sys → Sys
     | none => run ts s
     | some s' => run ts s'
 
-def initShared : Shared := ⟨fun _ => 1, []⟩
+def initShared : Shared := ⟨fun _ => 1, [], 0⟩
 
 def init (progs : List (List Micro)) : Sys :=
   ⟨none, false, initShared, fun t => ⟨progs.getD t [], 0⟩⟩
